@@ -51,7 +51,7 @@ func OpenStore(backend, dir string) (store.Store, error) {
 		return badgerstore.OpenWithOptions(badger.DefaultOptions("").WithInMemory(true).WithLoggingLevel(badger.ERROR).WithNumCompactors(2).WithNumMemtables(2).WithMemTableSize(8 << 20))
 	case BadgerDisk:
 		return badgerstore.OpenWithOptions(badger.DefaultOptions(dir).WithLoggingLevel(badger.ERROR).
-			WithValueLogFileSize(4 << 20).WithMemTableSize(4 << 20).WithNumCompactors(2).WithNumMemtables(2).
+			WithValueLogFileSize(4 << 20).WithMemTableSize(4 << 20).WithValueThreshold(32 << 10).WithNumCompactors(2).WithNumMemtables(2).
 			WithBlockCacheSize(1 << 20).WithIndexCacheSize(1 << 20))
 	case BadgerDefault:
 		return badgerstore.OpenWithOptions(badger.DefaultOptions(dir).WithLoggingLevel(badger.ERROR))
@@ -255,9 +255,9 @@ func (c *decoCursor) Seek(key []byte) error {
 	}
 	return c.c.Seek(key)
 }
-func (c *decoCursor) Next()                 { c.c.Next() }
-func (c *decoCursor) Valid() bool           { return c.c.Valid() }
-func (c *decoCursor) Close() error          { return c.c.Close() }
+func (c *decoCursor) Next()        { c.c.Next() }
+func (c *decoCursor) Valid() bool  { return c.c.Valid() }
+func (c *decoCursor) Close() error { return c.c.Close() }
 func (c *decoCursor) Item() (store.Item, error) {
 	if err := c.d.hit(KItem); err != nil {
 		return store.Item{}, err
